@@ -7,7 +7,7 @@ usage: x_cs.py <outdir> <out.v>        run `python -m generator --plugin dotnet 
 
 What is kept of a file (LSP.Dotnet.csfile) is exactly what decides the wire schema / message metadata:
   class/record : name, [DataContract], base type, every data member ([DataMember(Name=..)] wire name, identifier, type,
-                 top-level `?`, [JsonProperty(NullValueHandling = NullValueHandling.Ignore)]), the [JsonConstructor]
+                 top-level `?`, [JsonProperty(NullValueHandling = NullValueHandling.Ignore)], whether it has a set/init accessor), the [JsonConstructor]
                  (parameter names, `Lhs = rhs;` assignments), [LSPRequest("m", typeof(R)..)], [LSPResponse(typeof(R))],
                  every [Direction(MessageDirection.X)]
   enum         : the value each member puts on the wire: under [JsonConverter(typeof(StringEnumConverter))] the
@@ -321,8 +321,9 @@ def parse_class_body(toks, fname, cname):
     members, ctor = [], None
     while p.i < len(toks):
         attrs = p.attrs()
-        while p.peek() in MODIFIERS:
-            p.next()
+        mods = set()
+        while p.peek() in MODIFIERS or p.peek() == "const":
+            mods.add(p.next()[1])
         where = "%s (token %d)" % (cname, p.i)
         if p.kind() == "id" and p.peek() == cname and p.peek(1) == "(":      # constructor
             p.next()
@@ -349,21 +350,34 @@ def parse_class_body(toks, fname, cname):
             raise Reject("%s: [JsonConstructor] on %s.%s which is no constructor" % (fname, cname, name))
         nx = p.peek()
         if nx == "{":
-            p.balanced("{", "}")
+            acc = p.balanced("{", "}")
+            # accessor names at depth 0 of the accessor block: `set` / `init` make the member settable
+            depth, settable, prev = 0, False, ("op", ";")
+            for tk in acc:
+                if tk[0] == "op" and tk[1] in "{(":
+                    depth += 1
+                elif tk[0] == "op" and tk[1] in "})":
+                    depth -= 1
+                elif depth == 0 and tk[0] == "id" and tk[1] in ("set", "init") and prev[1] in (";", "}", "private", "protected", "internal", "public"):
+                    settable = prev[1] not in ("private",)
+                prev = tk
             if p.peek() == "=":
                 p.next(); p.until_semicolon()
         elif nx == ";":
             p.next()
+            settable = not (mods & {"readonly", "const"})
         elif nx == "=":
             p.next(); p.until_semicolon()
+            settable = not (mods & {"readonly", "const"})
         elif nx == "=>":
             p.next(); p.until_semicolon()
+            settable = False
         else:
             raise Reject("%s: member %s.%s has a shape outside the grammar (next token %r)" % (fname, cname, name, nx))
         if wire is None and jp:
             wire = name          # opt-in by [JsonProperty] alone: the wire name is the identifier
         if wire is not None:
-            members.append({"wire": wire, "ident": name, "type": t, "nullable": nullable, "ignore": ignore})
+            members.append({"wire": wire, "ident": name, "type": t, "nullable": nullable, "ignore": ignore, "settable": settable})
     return members, ctor
 
 
@@ -539,8 +553,8 @@ def cfile(kind, d):
     if kind == "enum":
         return "FEnum {| en_name := %s; en_values := [%s] |}" % (
             q(d["name"]), "; ".join(("EVStr %s" % q(v[1])) if v[0] == "s" else "EVInt (%d)" % v[1] for _, v in d["members"]))
-    mem = ";\n    ".join("{| m_wire := %s; m_ident := %s; m_type := %s; m_nullable := %s; m_ignore := %s |}"
-                        % (q(m["wire"]), q(m["ident"]), ctype(m["type"]), b(m["nullable"]), b(m["ignore"])) for m in d["members"])
+    mem = ";\n    ".join("{| m_wire := %s; m_ident := %s; m_type := %s; m_nullable := %s; m_ignore := %s; m_settable := %s |}"
+                        % (q(m["wire"]), q(m["ident"]), ctype(m["type"]), b(m["nullable"]), b(m["ignore"]), b(m["settable"])) for m in d["members"])
     ctor = "None"
     if d["ctor"] is not None:
         ctor = "(Some {| k_params := [%s]; k_assigns := [%s] |})" % (
